@@ -230,6 +230,8 @@ type c16world struct {
 	fail      string
 	// pipeline-stall: the reader of the pipeline's Consumer channel takes a future only when the environment lets it
 	stall      bool
+	wantClose  bool // pipeline-close: the client waits for the environment before closing the pipeline
+	closeNow   bool
 	wantPermit bool
 	permits    int
 	timerFired bool
@@ -258,6 +260,9 @@ func runC16(prefix []int, maxInFlight int, timeout time.Duration, fault *connFau
 		var out []vsched.EnvT
 		if !w.autoReply && !w.noReply && len(w.pending) > 0 {
 			out = append(out, vsched.EnvT{Key: fmt.Sprintf("answer request %d", len(w.received)-len(w.pending)), Do: func() { w.answerNext() }})
+		}
+		if w.wantClose && !w.closeNow {
+			out = append(out, vsched.EnvT{Key: "client closes the pipeline", Do: func() { w.closeNow = true }})
 		}
 		if w.stall && w.wantPermit && w.permits == 0 {
 			out = append(out, vsched.EnvT{Key: "consumer takes a future", Do: func() { w.permits++ }})
@@ -732,6 +737,76 @@ func runC16case(c c16case) (string, *Recorder) {
 			}
 		}
 		return fail, rec
+	case "pipeline-close":
+		// A pipeline is closed while responses are still outstanding or unread (what raft does when it leaves
+		// pipeline mode); later plain RPCs and a new pipeline from the same transport must get their own responses.
+		var fail string
+		h := hdrs()[0]
+		respond := func(i int, cmd interface{}) (interface{}, error) {
+			switch a := cmd.(type) {
+			case *raft.AppendEntriesRequest:
+				return &raft.AppendEntriesResponse{RPCHeader: h, Term: a.Term, LastLog: a.PrevLogEntry + 1000, Success: true}, nil
+			case *raft.RequestVoteRequest:
+				return &raft.RequestVoteResponse{RPCHeader: h, Term: a.Term + 500}, nil
+			}
+			return nil, fmt.Errorf("unexpected command")
+		}
+		w, rec, pm := runC16(c.Prefix, c.InFlight, time.Second, nil, false, respond, func(w *c16world) {
+			p, err := w.a.AppendEntriesPipeline("idB", "B")
+			if err != nil {
+				fail = "cannot open a pipeline: " + err.Error()
+				return
+			}
+			for i := 0; i < c.Depth; i++ {
+				req := &raft.AppendEntriesRequest{RPCHeader: h, Term: 5, PrevLogEntry: uint64(i + 1)}
+				if _, err := p.AppendEntries(req, new(raft.AppendEntriesResponse)); err != nil {
+					if !w.timerFired {
+						fail = fmt.Sprintf("pipeline send %d failed although no deadline passed: %v", i, err)
+					}
+					break
+				}
+			}
+			w.wantClose = true
+			vsched.WaitAlways("close-permit", func() bool { return w.closeNow })
+			w.wantClose = false
+			p.Close()
+			// plain RPCs afterwards
+			var rv raft.RequestVoteResponse
+			if err := w.a.RequestVote("idB", "B", &raft.RequestVoteRequest{RPCHeader: h, Term: 9, Candidate: []byte("c")}, &rv); err == nil && rv.Term != 509 && fail == "" {
+				fail = fmt.Sprintf("RequestVote(term 9) after closing a pipeline completed without error but carries Term=%d (the response produced for another request)", rv.Term)
+			} else if err != nil && !w.timerFired && fail == "" {
+				fail = "RequestVote after closing a pipeline failed although no deadline passed: " + err.Error()
+			}
+			var ar raft.AppendEntriesResponse
+			if err := w.a.AppendEntries("idB", "B", &raft.AppendEntriesRequest{RPCHeader: h, Term: 5, PrevLogEntry: 77}, &ar); err == nil && ar.LastLog != 1077 && fail == "" {
+				fail = fmt.Sprintf("AppendEntries(prev 77) after closing a pipeline completed without error but carries LastLog=%d", ar.LastLog)
+			}
+			// and a new pipeline
+			p2, err := w.a.AppendEntriesPipeline("idB", "B")
+			if err != nil {
+				if !w.timerFired && fail == "" {
+					fail = "cannot open a second pipeline: " + err.Error()
+				}
+				return
+			}
+			f, err := p2.AppendEntries(&raft.AppendEntriesRequest{RPCHeader: h, Term: 5, PrevLogEntry: 88}, new(raft.AppendEntriesResponse))
+			if err == nil {
+				g := vsched.Recv[raft.AppendFuture]("pipe2-consume", p2.Consumer())
+				if g != f && fail == "" {
+					fail = "second pipeline delivered a foreign future"
+				} else if g.Error() == nil && g.Response().LastLog != 1088 && fail == "" {
+					fail = fmt.Sprintf("second pipeline: future for prev=88 completed without error but carries LastLog=%d", g.Response().LastLog)
+				}
+			}
+			p2.Close()
+		})
+		if pm != "" {
+			return pm, rec
+		}
+		if !w.done && fail == "" {
+			fail = "client blocked for ever after closing a pipeline"
+		}
+		return fail, rec
 	}
 	return "unknown case kind", nil
 }
@@ -767,7 +842,7 @@ func enumC16(ctx *CheckCtx, shard, of int) *Stats {
 		if d != "" {
 			return report(c, d)
 		}
-		if rec == nil || (c.Kind != "pipeline" && c.Kind != "pipeline-stall") {
+		if rec == nil || (c.Kind != "pipeline" && c.Kind != "pipeline-stall" && c.Kind != "pipeline-close") {
 			return false
 		}
 		for i := len(prefix); i < len(rec.points); i++ {
@@ -841,6 +916,18 @@ func enumC16(ctx *CheckCtx, shard, of int) *Stats {
 			st.Outcomes[fmt.Sprintf("pipeline depth=%d inflight=%d", depth, inflight)]++
 		}
 	}
+	for _, inflight := range []int{2, 3} {
+		for depth := 1; depth <= inflight-1; depth++ {
+			if !mine() {
+				continue
+			}
+			n0 := st.Execs
+			if explore(c16case{Kind: "pipeline-close", Depth: depth, InFlight: inflight}, nil) {
+				return st
+			}
+			st.Outcomes[fmt.Sprintf("pipeline-close depth=%d inflight=%d schedules=%d", depth, inflight, st.Execs-n0)]++
+		}
+	}
 	maxStall := 3
 	if ctx.Tier == "thorough" {
 		maxStall = 4
@@ -882,7 +969,7 @@ func withSchedNone(f func()) { f() }
 func init() {
 	enumReplays["enum-nettransport"] = replayC16
 	register(&Check{Prop: "C16", Level: "model_checking",
-		Rule:        "the real NetworkTransport (two instances) runs under the cooperative scheduler over virtual connections: (1) every message variant of every RPC type (three header forms; nil / empty / non-empty / 70 kB entries of all six log types with extensions and timestamps; boundary integers; snapshot bodies of 0, 1, 4095-4097 and 300000 bytes; a handler error) is sent in a sequence of three calls that reuses the pooled connection, and what the handler receives and the caller gets back is compared field by field; (2) for an AppendEntries, a RequestVote and an InstallSnapshot the connection is cut after EVERY byte offset of the request and of the response (quick: every 7th offset for long messages), and the next call on the same transport must be served correctly; (3) a handler that never answers (deadline) followed by another call; (4) pipelines of depth 1-4 with MaxRPCsInFlight 2, 3, 10 under every interleaving of handler answers and timers; (5) pipelines of depth 2-3 (thorough: 2-4) with MaxRPCsInFlight 2, 3 whose Consumer() reader is slow, under every interleaving of handler answers, reader steps and timers, the sender continuing after a failed send: every future that completes without error carries the response to its own request; distinct = distinct (case, schedule)",
+		Rule:        "the real NetworkTransport (two instances) runs under the cooperative scheduler over virtual connections: (1) every message variant of every RPC type (three header forms; nil / empty / non-empty / 70 kB entries of all six log types with extensions and timestamps; boundary integers; snapshot bodies of 0, 1, 4095-4097 and 300000 bytes; a handler error) is sent in a sequence of three calls that reuses the pooled connection, and what the handler receives and the caller gets back is compared field by field; (2) for an AppendEntries, a RequestVote and an InstallSnapshot the connection is cut after EVERY byte offset of the request and of the response (quick: every 7th offset for long messages), and the next call on the same transport must be served correctly; (3) a handler that never answers (deadline) followed by another call; (4) pipelines of depth 1-4 with MaxRPCsInFlight 2, 3, 10 under every interleaving of handler answers and timers; (5) pipelines of depth 2-3 (thorough: 2-4) with MaxRPCsInFlight 2, 3 whose Consumer() reader is slow, under every interleaving of handler answers, reader steps and timers, the sender continuing after a failed send: every future that completes without error carries the response to its own request; (6) a pipeline closed while responses are outstanding or unread (every interleaving of answers, the close and timers), followed by plain RequestVote/AppendEntries calls and a second pipeline on the same transport, each of which must get its own response; distinct = distinct (case, schedule)",
 		Assumptions: []string{"virtual connections: reliable ordered byte streams, unbounded buffering, deadlines in virtual time; tcp_transport.go (real sockets) is outside the model", "nil and empty slices are identified (msgpack does not distinguish them); times compared as instants"},
 		Units: func(tier string) []Unit {
 			return []Unit{{Name: "enum-nettransport", Enum: enumC16Wrapper, NoSched: true}}
